@@ -221,7 +221,7 @@ def gen_graph(rng: common.Rng, n: int, shape: str) -> list[list[int]]:
 
 
 def gen_system(rng: common.Rng, shape: str | None = None, kind: str | None = None) -> dict[str, Any]:
-    n = rng.pick([2, 2, 3, 3, 4])
+    n = rng.pick([2, 2, 3, 3, 4, 5])
     shape = shape or rng.pick(["strong", "strong", "mixed"])
     kind = kind or rng.pick(["lin", "lin", "lin", "lin", "rat", "sin"])
     kbound = rng.pick([Fraction(1, 2), Fraction(1, 2), Fraction(1, 4), Fraction(1, 8)])
@@ -232,11 +232,20 @@ def gen_system(rng: common.Rng, shape: str | None = None, kind: str | None = Non
     for k in range(n):
         names = [f"y{k}"]
         sizes[f"y{k}"] = rng.pick([1, 1, 2, 3])
+        if rng.chance(0.3):
+            # a second output: read by the same disciplines as the first one, or by nobody
+            names.append(f"z{k}")
+            sizes[f"z{k}"] = rng.pick([1, 2])
         outs_of.append(names)
+    z_read = {k: rng.chance(0.7) for k in range(n)}
     discs = []
     for k in range(n):
-        ins = [f"y{p}" for p in preds[k]]
-        if rng.chance(0.6) or not ins:
+        ins = []
+        for p in preds[k]:
+            ins.append(f"y{p}")
+            if len(outs_of[p]) > 1 and z_read[p] and not (p == k):
+                ins.append(f"z{p}")
+        if k == 0 or rng.chance(0.6) or not ins:
             ins.append("x")
         outs = {}
         for o in outs_of[k]:
@@ -263,7 +272,7 @@ def gen_system(rng: common.Rng, shape: str | None = None, kind: str | None = Non
             "name": f"D{k}",
             "kind": kind,
             "ins": [src],
-            "outs": {f"y{k}": {"c": [rat(rng.dyadic(-2, 2, 2))], "m": {src: [[rat(Fraction(1, 4))] * sizes[src]]}}},
+            "outs": {f"y{k}": {"c": [rat(rng.dyadic(-2, 2, 2))], "m": {src: [[rat(Fraction(1, 8))] * sizes[src]]}}},
         })
     order = list(range(len(discs)))
     rng.shuffle(order)
@@ -304,6 +313,22 @@ def gen_mda(rng: common.Rng, system: dict[str, Any], cls: str | None = None) -> 
         m["use_gradient"] = rng.chance(0.5)
     if cls == "MDAGSNewton" or m.get("inner") == "MDAGSNewton":
         m["gs_iter"] = rng.pick([1, 2, 3])
+    # less usual ways of configuring / running the same algorithms
+    extra: dict[str, Any] = {}
+    if cls == "MDAJacobi" and rng.chance(0.15):
+        extra["n_processes"] = 2  # threads
+    if cls == "MDAChain" and rng.chance(0.2):
+        extra["mdachain_parallelize_tasks"] = True
+    if cls == "MDAChain" and rng.chance(0.2):
+        extra["initialize_defaults"] = True
+    if m["warm"] and rng.chance(0.3):
+        extra["cache"] = "MemoryFullCache"
+    if cls in SOLVER_CLASSES and rng.chance(0.2):
+        extra["set_after"] = True  # acceleration / relaxation set through the attributes after construction
+    if cls in ("MDAChain", "MDAGSNewton") and rng.chance(0.2):
+        extra["tol_after"] = True  # tolerance assigned to the settings after construction (cascaded)
+    if extra:
+        m["extra"] = extra
     return m
 
 
@@ -381,13 +406,28 @@ def build_mda(case: dict[str, Any]):
     cls = m["cls"]
     base = {"tolerance": float(Fraction(m["tol"])), "max_mda_iter": int(m["max_iter"]), "warm_start": bool(m["warm"])}
     fac = MDAFactory()
+    extra = m.get("extra", {})
+    if extra.get("n_processes"):
+        base.update({"n_processes": 2, "use_threading": True})
+    for k in ("mdachain_parallelize_tasks", "initialize_defaults"):
+        if extra.get(k):
+            base[k] = True
+    final_tol = base["tolerance"]
+    if extra.get("tol_after"):
+        base["tolerance"] = 0.5
+    solver_settings = _solver_settings(m)
+    if extra.get("set_after"):
+        solver_settings = {}
 
     def qn(settings):
         settings.update({"method": m["method"], "use_gradient": bool(m["use_gradient"])})
         return settings
 
     if cls in SOLVER_CLASSES:
-        mda = fac.create(cls, listed, **base, **_solver_settings(m))
+        mda = fac.create(cls, listed, **base, **solver_settings)
+        if extra.get("set_after"):
+            mda.acceleration_method = m["accel"]
+            mda.over_relaxation_factor = float(Fraction(m["omega"]))
     elif cls == "MDAQuasiNewton":
         mda = fac.create(cls, listed, **qn(dict(base)))
     elif cls == "MDAGSNewton":
@@ -416,6 +456,10 @@ def build_mda(case: dict[str, Any]):
     else:
         raise ValueError(cls)
     mda.scaling = m["scaling"]
+    if extra.get("tol_after"):
+        mda.settings.tolerance = final_tol
+    if extra.get("cache"):
+        mda.set_cache(extra["cache"])
     return mda, discs
 
 
